@@ -77,10 +77,13 @@ impl<'a> UserModel<'a> {
                                     .worksheet_mut(*sheet)?
                                     .cell_clear_contents(*row, *column);
                             } else {
+                                // There was no cell before the edit: remove it altogether.
+                                // Clearing only its contents would leave behind the style
+                                // (e.g. the number format) that the typed text implied.
                                 self.model
                                     .workbook
                                     .worksheet_mut(*sheet)?
-                                    .cell_clear_contents(*row, *column)?;
+                                    .remove_cell(*row, *column)?;
                             }
                         }
                     }
